@@ -111,7 +111,9 @@ namespace ST
         {
             m_chars = is_reffed() ? move.m_chars : m_data;
             traits_t::copy(m_data, move.m_data, local_length);
+            move.m_chars = move.m_data;
             move.m_size = 0;
+            traits_t::assign(move.m_data, local_length, 0);
         }
 
         buffer(const char_T *data, size_t size)
@@ -188,11 +190,18 @@ namespace ST
 
         buffer<char_T> &operator=(buffer<char_T> &&move) noexcept
         {
-            std::swap(m_chars, move.m_chars);
-            std::swap(m_size, move.m_size);
+            if (this == &move)
+                return *this;
+
+            if (is_reffed())
+                delete[] m_chars;
+
+            m_size = move.m_size;
+            m_chars = is_reffed() ? move.m_chars : m_data;
             traits_t::copy(m_data, move.m_data, local_length);
-            if (!is_reffed())
-                m_chars = m_data;
+            move.m_chars = move.m_data;
+            move.m_size = 0;
+            traits_t::assign(move.m_data, local_length, 0);
             return *this;
         }
 
